@@ -304,6 +304,16 @@ Definition is_absent_sel known G opn (e : wexpr) : bool :=
                 | Some (VBundle ms) => negb (mem_str t ms) | _ => false end
   | _ => false
   end.
+Fixpoint has_bad_arg (ps : list kind) (l : list (option vty)) : bool :=
+  match ps, l with
+  | p :: ps', Some v :: l' => negb (arg_ok p v) || has_bad_arg ps' l'
+  | _, _ => false
+  end.
+Definition is_bad_arg_call known G opn (f : string) (ps : list kind) (e : wexpr) : bool :=
+  match e with
+  | WCall g args => String.eqb f g && has_bad_arg ps (map (ty_expr known G opn) args)
+  | _ => false
+  end.
 Definition is_noncmp_out G (e : wexpr) : bool :=
   match e with
   | WOut (WCmp _ _) _ => false
@@ -408,6 +418,14 @@ Proof.
   apply andb_true_iff in H. destruct H as [_ H]. f_equal. apply IH. exact H.
 Qed.
 
+Lemma has_bad_arg_rejects : forall ps l, has_bad_arg ps l = true -> check_args ps l = false.
+Proof.
+  induction ps as [|p ps IH]; intros [|[v|] l] H; simpl in *; try discriminate; try reflexivity.
+  apply orb_true_iff in H. destruct H as [H|H].
+  - apply negb_true_iff in H. rewrite H. reflexivity.
+  - rewrite (IH l H). apply andb_false_r.
+Qed.
+
 (* the "violates a rule under the environment at the hole" predicate, one constructor per
    rule family *)
 Section Violates.
@@ -430,6 +448,9 @@ Inductive violates (st : state) : wstmt -> Prop :=
     lookup (s_env st) x = Some (EVal v) -> v <> VEntity -> violates st (SAssign x e)
 | V_kind_decl : forall k x e v,                   (* [kind-decl] *)
     ty known st e = Some v -> coerce k v = None -> violates st (SDecl k x e)
+| V_kind_param : forall s f ps r,                (* [kind-param] *)
+    lookup (s_env st) f = Some (EFun ps r) ->
+    stmt_occurs (is_bad_arg_call known (s_env st) (s_open st) f ps) s = true -> violates st s
 | V_arity : forall s f ps r n,                    (* [arity] *)
     lookup (s_env st) f = Some (EFun ps r) -> List.length ps = n ->
     stmt_occurs (is_bad_arity f n) s = true -> violates st s
@@ -504,6 +525,12 @@ Proof.
     simpl. rewrite H. destruct v; try reflexivity. exfalso. apply H0. reflexivity.
   - (* kind decl *)
     simpl. rewrite H, H0. reflexivity.
+  - (* kind param *)
+    eapply stmt_occurs_rejects; [|eassumption].
+    intros e He. destruct e; try discriminate. simpl in He.
+    apply andb_true_iff in He. destruct He as [Hf Hb]. apply eqb_eq' in Hf. subst f0.
+    unfold Wf.ty. simpl. rewrite H. destruct (mem_str f (s_open st)); [reflexivity|].
+    rewrite (has_bad_arg_rejects _ _ Hb). reflexivity.
   - (* arity *)
     eapply stmt_occurs_rejects; [|eassumption].
     intros e He. destruct e; try discriminate. simpl in He.
